@@ -91,6 +91,7 @@ type cluster struct {
 	electionTick int
 	maxSize      uint64
 	ccVoters     int // > 0: membership-change schedule; the initial voters are 1..ccVoters
+	snapHeavy    bool // schedule numbers 3000000..3999999: frequent compaction and duplicated deliveries
 	nodes        []*simNode
 	flight       []flightMsg
 	w            *bufio.Writer
@@ -467,6 +468,9 @@ func (c *cluster) runRandom(r *rng, nevents int) {
 		// membership-change schedules: no compaction (a snapshot would need the ConfState as of
 		// its index), conf changes instead
 		p.wConf = 2 + r.intn(8)
+	} else if c.snapHeavy {
+		p.wCompact = 6 + r.intn(6)
+		p.wDup += 6
 	} else if r.chance(1, 2) {
 		p.wCompact = 1 + r.intn(6)
 	}
@@ -657,6 +661,7 @@ func cmdSim(args []string) error {
 		if err != nil {
 			return err
 		}
+		c.snapHeavy = k >= 3000000 && k < 4000000
 		c.runRandom(r, nevents)
 		fmt.Fprintf(w, "END %d\n", k)
 	}
